@@ -59,7 +59,9 @@ Lemma register_ok_shape c st k from m st' o :
   (forall x, In x o -> exists k' p, x = Deliver k' p) /\
   (o = [] \/ exists p, o = [Deliver k p]) /\
   (edone (rec st k) = true -> edone (rec st' k) = true) /\
-  (forall k' p, In (Deliver k' p) o -> edone (rec st' k) = true).
+  (forall k' p, In (Deliver k' p) o -> edone (rec st' k) = true) /\
+  (edone (rec st' k) = true -> edone (rec st k) = true \/ exists p, o = [Deliver k p]) /\
+  (length (eids (rec st' k)) = cN c - 1 -> em (rec st' k) <> None -> fix_once c = true -> edone (rec st' k) = true).
 Proof.
   intros Hok Hr. unfold Model.register in Hr.
   set (e := rec st k) in *.
@@ -80,7 +82,9 @@ Proof.
      (forall x, In x o -> exists k' p, x = @Deliver id digest payload k' p) /\
      (o = [] \/ exists p, o = [@Deliver id digest payload k p]) /\
      (edone e = true -> edone (rec st' k) = true) /\
-     (forall k' p, In (@Deliver id digest payload k' p) o -> edone (rec st' k) = true)).
+     (forall k' p, In (@Deliver id digest payload k' p) o -> edone (rec st' k) = true) /\
+     (edone (rec st' k) = true -> edone e = true \/ exists p, o = [@Deliver id digest payload k p]) /\
+     (length (eids (rec st' k)) = cN c - 1 -> em (rec st' k) <> None -> fix_once c = true -> edone (rec st' k) = true)).
   { intros pin' H. inversion H; subst st' o; clear H. simpl.
     unfold Model.upd_rec.
     assert (Hkk : forall A (x y : A), (if key_dec k k then x else y) = x).
@@ -101,20 +105,24 @@ Proof.
     { intros x Hx. destruct fire; simpl in Hx; [|contradiction]. destruct Hx as [Hx|[]]. eauto. }
     split. { destruct fire; eauto. }
     split. { destruct fire; auto. }
-    intros k' p Hin. destruct fire; simpl in Hin; [reflexivity|contradiction]. }
+    split. { intros k' p Hin. destruct fire; simpl in Hin; [reflexivity|contradiction]. }
+    split. { destruct fire; eauto. }
+    intros Hlen Hem Hfo. destruct fire eqn:F; [reflexivity|].
+    unfold fire in F. rewrite Hfo in F. apply Nat.eqb_eq in Hlen. rewrite Hlen in F. simpl in F.
+    destruct m'; [|congruence]. simpl in F. destruct (edone e); [reflexivity|discriminate]. }
   destruct Hok as [Hn|Hs].
-  - rewrite Hn in Hr. apply Hgo in Hr. destruct Hr as (H1&H2&H3&H4&H5&H6&H7&H8&H9&H10).
+  - rewrite Hn in Hr. apply Hgo in Hr. destruct Hr as (H1&H2&H3&H4&H5&H6&H7&H8&H9&H10&H11&H12).
     split; [exact H1|]. rewrite H2.
     split. { unfold Model.upd_pin. destruct (id_dec _ _); [|congruence]. destruct (Nat.eq_dec _ _); congruence. }
     split. { intros s r Hne. unfold Model.upd_pin. destruct (id_dec s _); auto. destruct (Nat.eq_dec r _); auto. subst. congruence. }
     split. { intros s r [Hne|Hne]; unfold Model.upd_pin; destruct (id_dec s _); auto; try congruence. destruct (Nat.eq_dec r _); auto; congruence. }
     split; [exact H3|]. split; [exact H4|]. split; [exact H5|]. split; [exact H6|].
-    split; [exact H7|]. split; [exact H8|]. split; [exact H9|exact H10].
+    split; [exact H7|]. split; [exact H8|]. split; [exact H9|]. split; [exact H10|]. split; [exact H11|exact H12].
   - rewrite Hs in Hr. destruct (dg_dec _ _); [|congruence]. apply Hgo in Hr.
-    destruct Hr as (H1&H2&H3&H4&H5&H6&H7&H8&H9&H10).
+    destruct Hr as (H1&H2&H3&H4&H5&H6&H7&H8&H9&H10&H11&H12).
     split; [exact H1|]. rewrite H2.
     split; [exact Hs|]. split; [reflexivity|]. split; [reflexivity|].
     split; [exact H3|]. split; [exact H4|]. split; [exact H5|]. split; [exact H6|].
-    split; [exact H7|]. split; [exact H8|]. split; [exact H9|exact H10].
+    split; [exact H7|]. split; [exact H8|]. split; [exact H9|]. split; [exact H10|]. split; [exact H11|exact H12].
 Qed.
 End Local.
